@@ -14,13 +14,13 @@ RULE = ("triples of near-colliding URLs: components drawn from tiny sets (scheme
         "some pair of the triple differs in at most one model component or is equal by different routes. Distinct by the triple of specs.")
 ASSUMPTIONS = ["objects with reflected comparison operators are not used as right-hand sides (their own methods would decide the result)"]
 
-SCHEMES = ["http", "https", "", "HTTP"]
+SCHEMES = ["http", "https", "", "HTTP", "mailto", "xmpp", "file"]
 UIS = [None, "u", "u:", "u:p", ":p", "U"]
-HOSTS = ["h", "H", "h2", "h.", "[::1]"]
+HOSTS = ["h", "H", "h2", "h.", "[::1]", None, None]  # None: no authority at all (scheme:path)
 PORTS = [None, 80, 443, 81, 0]
 PATHS = ["", "/", "/a", "/A", "/a/", "/a%2Fb", "/a%2fb", "/a b", "/a/../b"]
-QUERIES = ["", "q", "q=1", "q=1&r", "Q", "a+b", "a%20b"]
-FRAGS = ["", "f", "F", "f%20"]
+QUERIES = ["", "q", "q=1", "q=1&r", "Q", "a+b", "a%20b", "a b", "\xe9", "%7e", "%c3%a9"]
+FRAGS = ["", "f", "F", "f%20", "f g", "\xe9", "%7e"]
 ROUTES = ["str", "enc", "build", "pickle", "restore", "restore-hashed", "with_path", "origin-join", "build-enc", "build-enc-split", "split", "pickled-original"]
 
 
@@ -55,6 +55,14 @@ def triple(draw):
 
 def to_string(sp):
     s = sp["scheme"] + ":" if sp["scheme"] else ""
+    if sp["host"] is None:
+        p = sp["path"]
+        s += p if not p.startswith("//") else "/" + p.lstrip("/")
+        if sp["query"]:
+            s += "?" + sp["query"]
+        if sp["fragment"]:
+            s += "#" + sp["fragment"]
+        return s
     s += "//"
     if sp["ui"] is not None:
         s += sp["ui"] + "@"
@@ -119,6 +127,9 @@ def make(Y, sp):
     if r == "origin-join":
         u = URL(s)
         return u
+    if r == "build" and sp["host"] is None:
+        u0 = URL(s)
+        return URL.build(scheme=u0.scheme, path=u0.path, query_string=u0.query_string, fragment=u0.fragment)
     if r == "build":
         kw = {"scheme": sp["scheme"].lower(), "host": sp["host"].strip("[]")}
         if sp["ui"] is not None:
